@@ -78,12 +78,17 @@ def run(prop, tier, seed, replay=None):
         "mpz_gcdext and Domain::inv are modelled by their contract only: `cof p x` is *some* inverse of x mod p whenever one exists "
         "(theorems quantify over every such function; the driver runs extended Euclid, proved to satisfy the contract)",
         "Integer arithmetic (mulin/addin/sub/mod = mpz_mod) is exact (C01/C02)",
-        "RNSsystemFixed (tree recombination) has no model of its own: its output is compared with the specification checker and the "
-        "(proved) Garner conversion on the same primes and residues",
+        "RNSsystemFixed: Integer::inv = mpz_invert is modelled by the same cofactor contract reduced into [0,p) (the canonical inverse); "
+        "its size() and ith() are modelled as the code behaves (number of levels / the overwritten slot), which is not what the header "
+        "comments say; the property does not speak about them",
+        "ChineseRemainder over Montgomery<int32_t>, GFqDom<int32_t>, Modular<Log16>: the theorem is for every domain meeting the "
+        "init/convert/sub/inv contract (DomOK); that these three classes meet it is C04/C05/C07, and the correspondence checks the composite",
         "Poly1CRT: Poly1Dom::eval/mulin/mul/axpyin are modelled as exact polynomial arithmetic over Z/p on coefficient lists (C08); "
         "the field is Z/p with p prime (extension fields are not modelled)",
         "the special-member-function table is a syntactic reading of clang's AST (member initialisers and assignment statements of the "
-        "instantiated / implicitly defined special members, closed under calls to member functions of the same class); what the copy "
+        "instantiated / implicitly defined special members, closed under calls to member functions of the same class; the standard "
+        "copying primitives std::copy/copy_n/uninitialized_copy/move/memcpy/…, container assign/operator= and range constructors are read as "
+        "'reads the source range, writes the destination range'); what the copy "
         "of a *member's own type* does (std::vector, Integer, Array0 deep copy, the domain classes) is C16/C17's subject",
         "Array0 storage management inside RNSsystem is abstracted to value semantics (C17); the histories exercise it under ASan",
     ]
